@@ -947,7 +947,12 @@ class HyperbandScheduler(
                     self.metric: result[self.metric],
                     self._resource_attr: resource,
                 }
-                record.keep_case = milestone_reached
+                # (like for ``searcher_data == "rungs"``, this refers to the rung
+                # levels of the scheduler, not only to the milestones of the
+                # bracket the trial runs in)
+                record.keep_case = (
+                    resource in self.rung_levels or resource == self.max_t
+                )
                 if do_update:
                     largest_update_resource = record.largest_update_resource
                     if largest_update_resource is None:
